@@ -39,6 +39,19 @@ pub type LibGame = Game<String, String>;
 /// behavioural strategy profile keyed by names: [player][infoset][action] -> probability
 pub type Profile = [BTreeMap<String, BTreeMap<String, f64>>; 2];
 
+/// The harness's own reading of "probability proportional to the declared weights": robust
+/// against overflow / underflow of the total (weights are only required to be positive and
+/// finite), written independently of the library's normalisation.
+pub fn normalised(ws: &[f64]) -> Vec<f64> {
+    let max = ws.iter().cloned().fold(0.0, f64::max);
+    if !(max > 0.0) {
+        return ws.iter().map(|_| f64::NAN).collect();
+    }
+    let scaled: Vec<f64> = ws.iter().map(|w| w / max).collect();
+    let tot: f64 = scaled.iter().sum();
+    scaled.iter().map(|w| w / tot).collect()
+}
+
 pub fn pnum(p: usize) -> PlayerNum {
     if p == 0 {
         PlayerNum::One
@@ -255,6 +268,22 @@ impl MNode {
                 player: *player,
                 info: info.clone(),
                 acts: acts.iter().map(|(n, c)| (n.clone(), c.map_payoffs(f))).collect(),
+            },
+        }
+    }
+
+    /// apply `f` to every chance weight
+    pub fn map_weights(&self, f: &mut impl FnMut(f64) -> f64) -> MNode {
+        match self {
+            MNode::T(x) => MNode::T(*x),
+            MNode::C { info, outs } => MNode::C {
+                info: info.clone(),
+                outs: outs.iter().map(|(n, w, c)| (n.clone(), f(*w), c.map_weights(f))).collect(),
+            },
+            MNode::P { player, info, acts } => MNode::P {
+                player: *player,
+                info: info.clone(),
+                acts: acts.iter().map(|(n, c)| (n.clone(), c.map_weights(f))).collect(),
             },
         }
     }
